@@ -23,8 +23,8 @@
   (not_started / source_next_completed / source_next_active / …_stream_stopped / …_cleanup_requested),
   take_until's `cleanupReady_` hand-off, `cleanupCompleted_` join, its own stop source (callbacks
   run most-recently-registered first: source next, then trigger next), and the `destruct()` calls of
-  its cleanup operation (history variables `srcOpDtor`/`trigOpDtor`: `trigger_receiver::set_done`
-  destructs `sourceOp_`, as the code does — DESIGN §8 #6).
+  its cleanup operation (history variables `srcOpCtor/srcOpDtor`, `trigOpCtor/trigOpDtor`: each receiver
+  destructs its own operation — `source_receiver` `sourceOp_`, `trigger_receiver` `triggerOp_`).
 
   The consumers (reduce_stream, for_each = reduce over unit, and a manual next-by-next driver) are the
   `Root` machine at the end of the file.
@@ -147,12 +147,10 @@ structure TakeSt where
   joined : Bool            -- cleanupCompleted_
   srcErr : Option Nat      -- sourceError_
   trigErr : Option Nat     -- triggerError_
-  srcCleanDone : Bool      -- history: cleanup(source) has completed
   srcOpCtor : Nat          -- history: sourceOp_.construct_with calls
   srcOpDtor : Nat          -- history: sourceOp_.destruct calls
   trigOpCtor : Nat
   trigOpDtor : Nat
-  dtorRunning : Bool       -- history: sourceOp_ destructed before cleanup(source) completed
   deriving DecidableEq, Repr
 
 inductive Op
@@ -165,7 +163,7 @@ inductive Op
 
 def LeafSt.init : LeafSt := ⟨0, .idle, 0, 0⟩
 def StopImmSt.init : StopImmSt := ⟨.idle, .notStarted, false, none⟩
-def TakeSt.init : TakeSt := ⟨.idle, false, false, false, false, false, false, none, none, false, 0, 0, 0, 0, false⟩
+def TakeSt.init : TakeSt := ⟨.idle, false, false, false, false, false, false, none, none, 0, 0, 0, 0⟩
 
 def connect : SExpr → Op
   | .range lo hi => .leaf (.range lo hi) LeafSt.init
@@ -397,16 +395,12 @@ def tuJoin (x : TU) : TU :=
 
 /-- source_receiver::set_done / set_error -/
 def tuJoinSrc (x : TU) (e : Option Nat) : TU :=
-  tuJoin { x with st := { x.st with srcOpDtor := x.st.srcOpDtor + 1, srcCleanDone := true,
+  tuJoin { x with st := { x.st with srcOpDtor := x.st.srcOpDtor + 1,
                                     srcErr := firstErr e x.st.srcErr } }
 
-/-- trigger_receiver::set_done destructs `sourceOp_` (sic); set_error destructs `triggerOp_` -/
+/-- trigger_receiver::set_done / set_error: destruct `triggerOp_`, then join -/
 def tuJoinTrig (x : TU) (e : Option Nat) : TU :=
-  match e with
-  | none =>
-    tuJoin { x with st := { x.st with srcOpDtor := x.st.srcOpDtor + 1,
-                                      dtorRunning := x.st.dtorRunning || !x.st.srcCleanDone } }
-  | some v => tuJoin { x with st := { x.st with trigOpDtor := x.st.trigOpDtor + 1, trigErr := some v } }
+  tuJoin { x with st := { x.st with trigOpDtor := x.st.trigOpDtor + 1, trigErr := firstErr e x.st.trigErr } }
 
 /-- start_trigger_cleanup -/
 def tuStartTrigCleanup (rec : Rec) (x : TU) : TU :=
